@@ -26,7 +26,7 @@ def run(ctx):
     os.makedirs(os.path.join(fw.WORK, "c19"), exist_ok=True)
     tpath = os.path.join(fw.WORK, "c19", "table-%d.tsv" % os.getpid())
     open(tpath, "w").write("\n".join("\t".join(r) for r in rows) + "\n")
-    n = 12 if ctx.thorough() else 3
+    n = 40 if ctx.thorough() else 3
     res = fw.corr(ctx, "genesis", n, extra_args=["-replay", "table=" + tpath], driver_suite=False)
     try:
         os.remove(tpath)
